@@ -42,6 +42,9 @@ type fieldAnchor struct {
 type anchorFile struct {
 	Funcs  map[string]funcAnchor  `json:"funcs"`
 	Fields map[string]fieldAnchor `json:"fields"`
+	// Named lists the simple names of module functions that occur as string literals in the rules' sources: a rule
+	// recognises these by name (as callees), so the inliner (inline.go) leaves them alone.
+	Named []string `json:"named"`
 }
 
 // canonFunc maps a re-identified function object to the name the rules know it by.
@@ -328,8 +331,27 @@ func (p *Program) GenerateAnchors(rulesDir, out string) error {
 			}
 		}
 	}
+	simple := map[string]bool{}
+	for _, fi := range p.AllFuncs {
+		if fi.Decl != nil {
+			simple[fi.Decl.Name.Name] = true
+		}
+	}
+	named := map[string]bool{}
+	for _, f := range files {
+		b, _ := os.ReadFile(f)
+		for _, m := range simpleNameRe.FindAllStringSubmatch(string(b), -1) {
+			if simple[m[1]] {
+				named[m[1]] = true
+			}
+		}
+	}
+	for n := range named {
+		af.Named = append(af.Named, n)
+	}
+	sort.Strings(af.Named)
 	b, _ := json.MarshalIndent(af, "", " ")
-	fmt.Printf("anchors: %d functions, %d fields\n", len(af.Funcs), len(af.Fields))
+	fmt.Printf("anchors: %d functions, %d fields, %d simple names\n", len(af.Funcs), len(af.Fields), len(af.Named))
 	return os.WriteFile(out, append(b, '\n'), 0o644)
 }
 
@@ -346,14 +368,35 @@ func (p *Program) FieldName(fv *types.Var) string {
 	return fv.Name()
 }
 
+var simpleNameRe = regexp.MustCompile("[\"`]([A-Za-z_][A-Za-z0-9_]*)[\"`]")
+
+// IsNamed reports whether a function's simple name occurs as a string literal in the rules.
+func (p *Program) IsNamed(simple string) bool {
+	p.IsAnchor("")
+	return namedSimple[simple]
+}
+
+var namedSimple = map[string]bool{}
+var anchorPkgs = map[string]bool{}
+
+// anchorPkg reports whether the rules name a function of this module package.
+func (p *Program) anchorPkg(short string) bool {
+	p.IsAnchor("")
+	return anchorPkgs[short]
+}
+
 // IsAnchor reports whether the rules name a function by this (canonical) name.
 func (p *Program) IsAnchor(name string) bool {
 	var af anchorFile
 	if anchorNames == nil {
 		anchorNames = map[string]bool{}
 		if len(anchorsJSON) > 0 && json.Unmarshal(anchorsJSON, &af) == nil {
-			for n := range af.Funcs {
+			for n, fa := range af.Funcs {
 				anchorNames[n] = true
+				anchorPkgs[fa.Pkg] = true
+			}
+			for _, n := range af.Named {
+				namedSimple[n] = true
 			}
 		}
 	}
